@@ -39,10 +39,24 @@ from harness import coqemit as E
 from harness.genmods.py2v import Unsupported, KNOWN_CLASSES, EXN
 
 PKG = os.path.join(core.REPO, "typedpy")
-MODULE = "typedpy.serialization.serialization"
-FIELD_ROOT = ("typedpy.structures.structures", "Field")
-TARGETS = ["_is_mapper_simple", "_is_optional_anyof", "_extract_non_nonefield_from_optional", "_leading_option",
-           "_structure_simplicity_level", "_enum_lookup", "_get_enum_mapping"]
+SER = "typedpy.serialization.serialization"
+STRUCT = "typedpy.structures.structures"
+FIELD_ROOT = (STRUCT, "Field")
+# (module, class | None, function, options)
+#   oracles       the definition takes the oracles [ext] (untranslated functions) and [mcall] (untranslated methods)
+#   rec_of        the function calls back into the named fuel-recursive function: it takes it as its [rec] parameter
+#   fuel          a Fixpoint on explicit fuel (it is re-entered through the functions whose rec_of it is)
+#   prefix_if_on  only the statements up to and including the first top-level `if` whose test mentions the named
+#                 parameter are translated; falling out of that prefix is Raise Unmodelled
+TARGETS = [
+    (SER, None, "_is_mapper_simple", {}), (SER, None, "_is_optional_anyof", {}),
+    (SER, None, "_extract_non_nonefield_from_optional", {}), (SER, None, "_leading_option", {}),
+    (SER, None, "_structure_simplicity_level", {}), (SER, None, "_enum_lookup", {}), (SER, None, "_get_enum_mapping", {}),
+    (STRUCT, "Structure", "from_trusted_data", {"oracles": True}),
+    (SER, None, "_get_class_deserialization_mapping_for_simple_class", {"oracles": True}),
+    (SER, None, "_remap_input", {"oracles": True, "rec_of": "deserialize_structure_internal"}),
+    (SER, None, "deserialize_structure_internal", {"oracles": True, "fuel": True, "prefix_if_on": "direct_trusted_mapping"}),
+]
 RESERVED = {"h", "rec", "l", "fuel", "k_after", "tt", "fix", "in", "let", "match", "end", "fun", "if", "then",
             "else", "return", "as", "at", "with", "forall", "exists", "Type", "Set", "Prop", "c", "r", "b", "o"}
 TRANSPARENT_DECORATORS = {"lru_cache"}
@@ -206,6 +220,54 @@ class TrT:
         self.loops = []                  # hoisted Fixpoints (text)
         self.nloops = 0
         self.rec_term = "rec"            # how the recursive call is spelled at the current position
+        self.oracles = False             # the definition takes [ext] and [mcall]
+        self.rec_of = fname              # the fuel-recursive function [rec] stands for
+        self.in_leader = False           # the body of the Fixpoint on fuel itself
+        self.notes = []
+        self.fresh_dicts = set()         # locals bound to a dict this function created (d[k] = v is a re-binding)
+
+    def pre(self):
+        return "ext mcall h" if self.oracles else "h"
+
+    def bind_args(self, fname, e, skip_first=None):
+        """positional and keyword arguments of a call of a translated function -> (binds, atoms in parameter order)"""
+        ps = self.gen.S.params.get(fname)
+        if ps is None:
+            raise Unsupported("parameter list of %s" % fname)
+        given = {}
+        pos = list(e.args)
+        names = [p for p, _, _ in ps]
+        binds = []
+        if skip_first is not None:
+            given[names[0]] = skip_first
+            names_pos = names[1:]
+        else:
+            names_pos = names
+        if len(pos) > len(names_pos):
+            raise Unsupported("too many positional arguments for %s" % fname)
+        for n, x in zip(names_pos, pos):
+            if isinstance(x, ast.Starred):
+                raise Unsupported("starred argument")
+            b, a = self.val(x)
+            binds += b
+            given[n] = a
+        for kw in e.keywords:
+            if kw.arg is None or kw.arg not in names or kw.arg in given:
+                raise Unsupported("keyword argument %s of %s" % (kw.arg, fname))
+            b, a = self.val(kw.value)
+            binds += b
+            given[kw.arg] = a
+        atoms = []
+        for n, _, d in ps:
+            if n in given:
+                atoms.append(given[n])
+            elif d is not None and isinstance(d, ast.Constant):
+                atoms.append(self.val(d)[1])
+            else:
+                raise Unsupported("argument %s of %s is missing" % (n, fname))
+        if self.gen.S.kwarg.get(fname):
+            atoms.append("(PDict [])")          # no further keywords at this call
+        return binds, atoms
 
     def fresh(self, base="t"):
         self.n += 1
@@ -310,19 +372,49 @@ class TrT:
         if isinstance(e, (ast.Compare, ast.UnaryOp)):
             t = self.fresh()
             return [(t, "(b <- %s ;; Ok (PBool b))" % self.cond(e))], t
-        if isinstance(e, (ast.ListComp, ast.DictComp)):
+        if isinstance(e, (ast.ListComp, ast.DictComp, ast.SetComp)):
             return self.comprehension(e)
         raise Unsupported("value expression %s" % ast.dump(e)[:80])
 
     def call(self, e):
         f = e.func
-        if e.keywords:
-            raise Unsupported("keyword arguments in %s" % ast.unparse(e)[:60])
         if isinstance(f, ast.Name) and f.id not in self.env:
+            if f.id in self.gen.fn_status and self.gen.S.where[f.id][1] is None:
+                binds, atoms = self.bind_args(f.id, e)
+                t = self.fresh()
+                if f.id == self.rec_of:
+                    if not self.recursive:
+                        raise Unsupported("call of %s" % f.id)
+                    return binds + [(t, "%s %s" % (self.rec_term, " ".join(atoms)))], t
+                st = self.gen.fn_status[f.id]
+                if st != "ok":
+                    raise Unsupported("calls %s, which is not translated (%s)" % (f.id, st))
+                opts = self.gen.S.opts[f.id]
+                if opts.get("oracles") and not self.oracles:
+                    raise Unsupported("call of %s, which uses the oracles" % f.id)
+                pre = "ext mcall h" if opts.get("oracles") else "h"
+                if opts.get("rec_of"):
+                    if opts["rec_of"] != self.rec_of or not self.recursive:
+                        raise Unsupported("call of %s outside the recursion of %s" % (f.id, opts["rec_of"]))
+                    return binds + [(t, "%s %s %s %s" % (coq_fn(f.id), pre, self.rec_term, " ".join(atoms)))], t
+                if self.gen.is_recursive[f.id]:
+                    if not self.in_leader:
+                        raise Unsupported("call of the fuel-recursive function %s where no fuel is at hand" % f.id)
+                    return binds + [(t, "%s (S fuel') %s %s" % (coq_fn(f.id), pre, " ".join(atoms)))], t
+                return binds + [(t, "%s %s %s" % (coq_fn(f.id), pre, " ".join(atoms)))], t
+            if e.keywords:
+                raise Unsupported("keyword arguments in %s" % ast.unparse(e)[:60])
             if f.id == "getattr" and len(e.args) in (2, 3):
                 b0, o = self.val(e.args[0])
-                name = self.attr_name(e.args[1])
                 t = self.fresh()
+                try:
+                    name = self.attr_name(e.args[1])
+                except Unsupported:
+                    if len(e.args) != 3:
+                        raise
+                    bk, k = self.val(e.args[1])
+                    bd, d = self.val(e.args[2])
+                    return b0 + bk + bd + [(t, "fld_getattr_dyn_def h %s %s %s" % (o, k, d))], t
                 if name == "__class__":
                     raise Unsupported("getattr(..., '__class__')")
                 if len(e.args) == 3:
@@ -334,39 +426,70 @@ class TrT:
                 b, a = self.val(e.args[0])
                 t = self.fresh()
                 return b + [(t, "py_len %s" % a)], t
-            if f.id == "isinstance":
+            if f.id in ("isinstance", "issubclass"):
                 t = self.fresh()
                 return [(t, "(b <- %s ;; Ok (PBool b))" % self.cond(e))], t
-            if f.id in self.gen.fn_status:
+            if f.id == "set" and len(e.args) <= 1 and self.gen.class_name("set") is None:
+                t = self.fresh()
+                if not e.args:
+                    return [], "(PSet false [])"
+                b, a = self.val(e.args[0])
+                return b + [(t, "py_set_call %s" % a)], t
+            if self.oracles and (self.gen.is_callable_name(f.id) or self.gen.class_name(f.id) is not None):
+                # a function (or constructor) that is not translated here: the oracle, by name
                 binds, atoms = [], []
                 for x in e.args:
+                    if isinstance(x, ast.Starred):
+                        raise Unsupported("starred argument")
                     b, a = self.val(x)
                     binds += b
                     atoms.append(a)
                 t = self.fresh()
-                if f.id == self.fname:
-                    if len(atoms) != self.gen.arity[f.id]:
-                        raise Unsupported("arity of the self call")
-                    return binds + [(t, "%s %s" % (self.rec_term, " ".join(atoms)))], t
-                st = self.gen.fn_status[f.id]
-                if st != "ok":
-                    raise Unsupported("calls %s, which is not translated (%s)" % (f.id, st))
-                if len(atoms) != self.gen.arity[f.id]:
-                    raise Unsupported("arity of the call of %s" % f.id)
-                if self.gen.is_recursive[f.id]:
-                    raise Unsupported("call of the recursive function %s from another function" % f.id)
-                return binds + [(t, "%s h %s" % (coq_fn(f.id), " ".join(atoms)))], t
+                self.notes.append("line %d: %s is not translated here: ext" % (e.lineno, f.id))
+                return binds + [(t, "ext %s [%s]" % (E.pstr(f.id), "; ".join(atoms)))], t
             raise Unsupported("call of %s" % f.id)
         if isinstance(f, ast.Attribute):
             if f.attr == "endswith" and len(e.args) == 1 and isinstance(e.args[0], ast.Constant) \
-                    and isinstance(e.args[0].value, str):
+                    and isinstance(e.args[0].value, str) and not e.keywords:
                 t = self.fresh()
                 return [(t, "(b <- %s ;; Ok (PBool b))" % self.cond(e))], t
+            if f.attr in self.gen.fn_status and self.gen.S.where[f.attr][1] is not None:
+                # a method that exactly one class of the package defines, translated: the receiver is its first parameter
+                st = self.gen.fn_status[f.attr]
+                if st != "ok":
+                    raise Unsupported("calls %s, which is not translated (%s)" % (f.attr, st))
+                opts = self.gen.S.opts[f.attr]
+                if opts.get("oracles") and not self.oracles:
+                    raise Unsupported("call of %s, which uses the oracles" % f.attr)
+                b0, o = self.val(f.value)
+                binds, atoms = self.bind_args(f.attr, e, skip_first=o)
+                t = self.fresh()
+                return b0 + binds + [(t, "%s %s %s" % (coq_fn(f.attr), "ext mcall h" if opts.get("oracles") else "h",
+                                                      " ".join(atoms)))], t
+            if e.keywords:
+                raise Unsupported("keyword arguments in %s" % ast.unparse(e)[:60])
+            if f.attr == "get" and len(e.args) in (1, 2):
+                b0, o = self.val(f.value)
+                bk, k = self.val(e.args[0])
+                bd, d = self.val(e.args[1]) if len(e.args) == 2 else ([], "PNone")
+                t = self.fresh()
+                return b0 + bk + bd + [(t, "py_dict_get_method %s %s %s" % (o, k, d))], t
             if not e.args and f.attr not in ("items", "values", "keys"):
                 # o.m(): a parameterless query method of an object, seen as the attribute "m()"
                 b0, o = self.val(f.value)
                 t = self.fresh()
                 return b0 + [(t, "fld_getattr h %s %s" % (o, E.pstr(f.attr + "()")))], t
+            if e.args and self.oracles and f.attr not in ("items", "values", "keys"):
+                b0, o = self.val(f.value)
+                binds, atoms = [], []
+                for x in e.args:
+                    if isinstance(x, ast.Starred):
+                        raise Unsupported("starred argument")
+                    b, a = self.val(x)
+                    binds += b
+                    atoms.append(a)
+                t = self.fresh()
+                return b0 + binds + [(t, "mcall %s %s [%s]" % (o, E.pstr(f.attr), "; ".join(atoms)))], t
         raise Unsupported("call %s" % ast.unparse(e)[:70])
 
     # ------------------------------------------------------------------ iteration
@@ -410,7 +533,7 @@ class TrT:
         saved = dict(self.env)
         try:
             pat = self.bind_target(g.target, kind)
-            if isinstance(e, ast.ListComp):
+            if isinstance(e, (ast.ListComp, ast.SetComp)):
                 b, a = self.val(e.elt)
                 elt = self.seq(b, "Ok (Some %s)" % a)
             else:
@@ -426,6 +549,8 @@ class TrT:
         r, t = self.fresh("r"), self.fresh()
         if isinstance(e, ast.ListComp):
             return binds + [(r, "filterM %s %s" % (lam, lst))], "(PList %s)" % r
+        if isinstance(e, ast.SetComp):
+            return binds + [(r, "filterM %s %s" % (lam, lst)), (t, "py_set_of %s" % r)], t
         return binds + [(r, "filterM %s %s" % (lam, lst)), (t, "py_dict_of %s" % r)], t
 
     # ------------------------------------------------------------------ conditions
@@ -475,6 +600,13 @@ class TrT:
                     if isinstance(op, ast.IsNot):
                         t = "py_not (%s)" % t
                     return self.seq(b, t)
+                if isinstance(r, ast.Attribute) and isinstance(r.value, ast.Name) and r.value.id not in self.env:
+                    m = self.gen.enum_member(r.value.id, r.attr)
+                    if m is not None:
+                        t = "py_is_member %s %s" % (a, m)
+                        if isinstance(op, ast.IsNot):
+                            t = "py_not (%s)" % t
+                        return self.seq(b, t)
                 raise Unsupported("is-comparison with %s" % ast.dump(r)[:50])
             if isinstance(op, (ast.In, ast.NotIn)):
                 b1, a1 = self.val(e.left)
@@ -500,6 +632,15 @@ class TrT:
             return self.seq(b1 + b2, "%s %s %s" % (fn, a1, a2))
         if isinstance(e, ast.Call) and not e.keywords:
             f = e.func
+            if isinstance(f, ast.Name) and f.id == "issubclass" and "issubclass" not in self.env and len(e.args) == 2 \
+                    and isinstance(e.args[1], ast.Name) and self.gen.class_name(e.args[1].id) is not None:
+                b, a = self.val(e.args[0])
+                return self.seq(b, "cls_issubclass h %s %s" % (a, E.pstr(self.gen.class_name(e.args[1].id))))
+            if isinstance(f, ast.Name) and f.id == "isinstance" and "isinstance" not in self.env and len(e.args) == 2 \
+                    and isinstance(e.args[1], ast.Name) and e.args[1].id not in self.env \
+                    and self.gen.imported_from(e.args[1].id) in (("collections.abc", "Mapping"), ("typing", "Mapping")):
+                b, a = self.val(e.args[0])
+                return self.seq(b, "py_is_mapping %s" % a)
             if isinstance(f, ast.Name) and f.id == "isinstance" and "isinstance" not in self.env and len(e.args) == 2:
                 b, a = self.val(e.args[0])
                 kind, ks = self.classes(e.args[1])
@@ -536,40 +677,47 @@ class TrT:
         return out
 
     def try_join(self, s):
-        """`if c: x = a [else: x = b]` with branches made of plain re-bindings of EXISTING locals to atoms:
-        -> (cond term, [(name, then atom, else atom)]) or None"""
-        def branch(stmts):
-            out = {}
+        """an `if` whose two branches are made of assignments only (x = e, d[k] = e on a dict created here): a JOIN.
+        The outputs are the names bound in both branches or re-bound in one of them; a name bound in one branch only
+        and unknown before is local to that branch.  -> (cond term, [output names], then term, else term) or None;
+        each branch term is a res of the tuple of outputs."""
+        def plain(stmts):
+            out = []
             for st in stmts:
                 if isinstance(st, ast.Pass):
                     continue
-                if not (isinstance(st, ast.Assign) and len(st.targets) == 1 and isinstance(st.targets[0], ast.Name)):
+                if not (isinstance(st, ast.Assign) and len(st.targets) == 1):
                     return None
-                name = st.targets[0].id
-                if name in out or name not in self.env:
+                t = st.targets[0]
+                if isinstance(t, ast.Name):
+                    out.append(t.id)
+                elif isinstance(t, ast.Subscript) and isinstance(t.value, ast.Name):
+                    out.append(t.value.id)
+                else:
                     return None
-                out[name] = st.value
             return out
-        tb, eb = branch(s.body), branch(s.orelse)
+        tb, eb = plain(s.body), plain(s.orelse)
         if tb is None or eb is None or not (tb or eb):
             return None
-        names = list(tb) + [n for n in eb if n not in tb]
-        used = {m.id for v in list(tb.values()) + list(eb.values()) for m in ast.walk(v) if isinstance(m, ast.Name)}
-        if used & set(names):
+        names = []
+        for n in tb + eb:
+            if n not in names and ((n in tb and n in eb) or n in self.env):
+                names.append(n)
+        if not names:
             return None
-        rows = []
-        for n in names:
-            pair = []
-            for br in (tb, eb):
-                if n in br:
-                    b, a = self.val(br[n])
-                    if b:
-                        return None
-                    pair.append(a)
-                else:
-                    pair.append(self.env[n])
-            rows.append((n, pair[0], pair[1]))
-        return self.cond(s.test), rows
+        c = self.cond(s.test)
+        terms = []
+        for stmts in (s.body, s.orelse):
+            saved, saved_fresh = dict(self.env), set(self.fresh_dicts)
+            try:
+                terms.append(self.block(list(stmts), lambda: "(Ok %s)" % self.tuple_of([self.env[n] for n in names]), None))
+            finally:
+                self.env, self.fresh_dicts = saved, saved_fresh
+        return c, names, terms[0], terms[1]
+
+    @staticmethod
+    def tuple_of(atoms):
+        return atoms[0] if len(atoms) == 1 else "(%s)" % ", ".join(atoms)
 
     def block(self, body, k, lc):
         """k: () -> term for falling off the end of this block under the CURRENT environment;
@@ -601,18 +749,30 @@ class TrT:
         if isinstance(s, ast.If):
             j = self.try_join(s)
             if j is not None:
-                c, rows = j
-                saved = dict(self.env)
-                lets = ""
-                for name, a1, a2 in rows:
+                c, names, a1, a2 = j
+                saved, saved_fresh = dict(self.env), set(self.fresh_dicts)
+                vs = []
+                for name in names:
                     v = self.fresh("v_" + name + "_")
-                    lets += "let %s := (if c then %s else %s) in " % (v, a1, a2)
+                    vs.append(v)
                     self.env[name] = v
+                    self.fresh_dicts.discard(name)
+                def pure(a):
+                    m = re.match(r"^\(let (\w+) := (.+) in \(Ok (\w+)\)\)$", a)
+                    if m and m.group(1) == m.group(3) and ";;" not in m.group(2) and " let " not in m.group(2):
+                        a = "(Ok %s)" % m.group(2)
+                    m = re.match(r"^\(Ok (.+)\)$", a)
+                    return m if m and ";;" not in a and " let " not in a and " in " not in a else None
+                m1, m2 = pure(a1), pure(a2)
                 try:
                     kk = nxt()
                 finally:
-                    self.env = saved
-                return "(c <- %s ;;\n   %s%s)" % (c, lets, kk)
+                    self.env, self.fresh_dicts = saved, saved_fresh
+                if len(names) == 1 and m1 and m2:
+                    return "(c <- %s ;;\n   let %s := (if c then %s else %s) in %s)" % (c, vs[0], m1.group(1), m2.group(1), kk)
+                if len(names) == 1:
+                    return "(c <- %s ;;\n   %s <- (if c then %s else %s) ;; %s)" % (c, vs[0], a1, a2, kk)
+                return "(c <- %s ;;\n   p <- (if c then %s else %s) ;; let '%s := p in %s)" % (c, a1, a2, self.tuple_of(vs), kk)
             c = self.cond(s.test)
             saved = dict(self.env)
             tb = self.block(s.body, nxt, lc)
@@ -620,20 +780,82 @@ class TrT:
             te = self.block(s.orelse, nxt, lc)
             self.env = saved
             return "(c <- %s ;;\n   if c then %s\n   else %s)" % (c, tb, te)
-        if isinstance(s, ast.Assign) and len(s.targets) == 1 and isinstance(s.targets[0], ast.Name):
-            name = s.targets[0].id
-            b, a = self.val(s.value)
+        idiom = self.construction_idiom(body)
+        if idiom is not None:
+            name, cls_e, flag, kw_e = idiom
+            b1, c = self.val(cls_e)
+            b2, kw = self.val(kw_e)
+            t = self.fresh()
             v = self.fresh("v_" + name + "_")
             saved = dict(self.env)
             self.env[name] = v
             try:
-                kk = nxt()
+                kk = self.block(body[3:], k, lc)
             finally:
                 self.env = saved
+            return self.seq(b1 + b2 + [(t, "py_trusted_instance %s %s %s" % (c, E.pstr(flag), kw))],
+                            "let %s := %s in %s" % (v, t, kk))
+        if isinstance(s, ast.Assign) and len(s.targets) == 1 and isinstance(s.targets[0], ast.Name):
+            name = s.targets[0].id
+            b, a = self.val(s.value)
+            v = self.fresh("v_" + name + "_")
+            saved, saved_fresh = dict(self.env), set(self.fresh_dicts)
+            self.env[name] = v
+            if isinstance(s.value, (ast.Dict, ast.DictComp)):
+                self.fresh_dicts.add(name)
+            else:
+                self.fresh_dicts.discard(name)
+            try:
+                kk = nxt()
+            finally:
+                self.env, self.fresh_dicts = saved, saved_fresh
             return self.seq(b, "let %s := %s in %s" % (v, a, kk))
+        if isinstance(s, ast.Assign) and len(s.targets) == 1 and isinstance(s.targets[0], ast.Subscript) \
+                and isinstance(s.targets[0].value, ast.Name) and s.targets[0].value.id in self.env \
+                and not isinstance(s.targets[0].slice, ast.Slice):
+            name = s.targets[0].value.id
+            if name not in self.fresh_dicts:
+                raise Unsupported("item assignment to %s, which this function did not create as a dict" % name)
+            b1, kk_ = self.val(s.targets[0].slice)
+            b2, a = self.val(s.value)
+            # CPython evaluates the right-hand side first, then the target's subscript
+            t = self.fresh()
+            v = self.fresh("v_" + name + "_")
+            saved = dict(self.env)
+            d = self.env[name]
+            self.env[name] = v
+            try:
+                rest_t = nxt()
+            finally:
+                self.env = saved
+            return self.seq(b2 + b1 + [(t, "py_setitem %s %s %s" % (d, kk_, a))], "let %s := %s in %s" % (v, t, rest_t))
         if isinstance(s, ast.For):
             return self.for_loop(s, nxt)
         raise Unsupported("statement %s" % ast.dump(s)[:80])
+
+    def construction_idiom(self, body):
+        """x = C.__new__(C); setattr(x, "FLAG", True); x.__init__( **kw )   -> (x, C, FLAG, kw) or None"""
+        if len(body) < 3:
+            return None
+        s0, s1, s2 = body[0], body[1], body[2]
+        if not (isinstance(s0, ast.Assign) and len(s0.targets) == 1 and isinstance(s0.targets[0], ast.Name)
+                and isinstance(s0.value, ast.Call) and isinstance(s0.value.func, ast.Attribute)
+                and s0.value.func.attr == "__new__" and len(s0.value.args) == 1 and not s0.value.keywords
+                and ast.dump(s0.value.func.value) == ast.dump(s0.value.args[0])):
+            return None
+        x = s0.targets[0].id
+        if not (isinstance(s1, ast.Expr) and isinstance(s1.value, ast.Call) and isinstance(s1.value.func, ast.Name)
+                and s1.value.func.id == "setattr" and len(s1.value.args) == 3 and not s1.value.keywords
+                and isinstance(s1.value.args[0], ast.Name) and s1.value.args[0].id == x
+                and isinstance(s1.value.args[1], ast.Constant) and isinstance(s1.value.args[1].value, str)
+                and isinstance(s1.value.args[2], ast.Constant) and s1.value.args[2].value is True):
+            return None
+        c2 = s2.value if isinstance(s2, ast.Expr) else None
+        if not (isinstance(c2, ast.Call) and isinstance(c2.func, ast.Attribute) and c2.func.attr == "__init__"
+                and isinstance(c2.func.value, ast.Name) and c2.func.value.id == x and not c2.args
+                and len(c2.keywords) == 1 and c2.keywords[0].arg is None):
+            return None
+        return x, s0.value.args[0], s1.value.args[1].value, c2.keywords[0].value
 
     def for_loop(self, s, nxt):
         if s.orelse:
@@ -646,7 +868,9 @@ class TrT:
         inv = [n for n in self.env if n in used and n not in state and n not in targets]
         self.nloops += 1
         lname = "%s_loop%d" % (coq_fn(self.fname), self.nloops)
-        rec_sig = " (rec : %s)" % self.gen.rec_type(self.fname) if self.recursive else ""
+        rec_sig = " (rec : %s)" % self.gen.rec_type(self.rec_of) if self.recursive else ""
+        osig = " (ext : pystr -> list pyval -> res pyval) (mcall : pyval -> pystr -> list pyval -> res pyval)" if self.oracles else ""
+        opre = " ext mcall" if self.oracles else ""
         rec_arg = " rec" if self.recursive else ""
         st_ty = "".join("pyval -> " for _ in state) if state else "unit -> "
         outer_env = dict(self.env)
@@ -666,7 +890,7 @@ class TrT:
             st_params.append(v)
         self.rec_term = "rec"
         pat = self.bind_target(s.target, kind)
-        head = "%s h%s %s k_after l'" % (lname, rec_arg, " ".join(inv_params))
+        head = "%s%s h%s %s k_after l'" % (lname, opre, rec_arg, " ".join(inv_params))
         again = lambda: "(%s %s)" % (head.replace("  ", " "), " ".join(self.env[n] for n in state)) \
             if state else "(%s)" % head.replace("  ", " ")      # noqa: E731
         leave = lambda: "(k_after %s)" % (" ".join(self.env[n] for n in state) if state else "tt")   # noqa: E731
@@ -676,8 +900,8 @@ class TrT:
             self.env = dict(outer_env)
             self.rec_term = outer_rec
         elt_ty = "pyval" if kind == "single" else "(pyval * pyval)"
-        sig = "Fixpoint %s (h : heap)%s %s(k_after : %sres pyval) (l : list %s) %s{struct l} : res pyval :=" % (
-            lname, rec_sig, "".join("(%s : pyval) " % p for p in inv_params), st_ty, elt_ty,
+        sig = "Fixpoint %s%s (h : heap)%s %s(k_after : %sres pyval) (l : list %s) %s{struct l} : res pyval :=" % (
+            lname, osig, rec_sig, "".join("(%s : pyval) " % p for p in inv_params), st_ty, elt_ty,
             "".join("(%s : pyval) " % p for p in st_params))
         exit_ = "k_after %s" % (" ".join(st_params) if st_params else "tt")
         self.loops.append("%s\n  match l with\n  | [] => %s\n  | %s :: l' =>\n   %s\n  end." % (sig, exit_, pat, body))
@@ -697,20 +921,42 @@ class TrT:
         finally:
             self.env = saved
         kfun = "(fun %s => %s)" % (" ".join(k_params) if k_params else "_", after)
-        call = "%s h%s %s %s %s %s" % (lname, (" " + self.rec_term) if self.recursive else "",
+        call = "%s%s h%s %s %s %s %s" % (lname, opre, (" " + self.rec_term) if self.recursive else "",
                                        " ".join(outer_env[n] for n in inv), kfun, lst,
                                        " ".join(outer_env[n] for n in state))
         return self.seq(binds, call.replace("  ", " ").strip())
 
 
-# --------------------------------------------------------------------------- the module
+# --------------------------------------------------------------------------- the modules
 
-class Gen:
+class Shared:
     def __init__(self):
         self.repo = Repo()
-        if MODULE not in self.repo.trees:
-            raise OSError("module %s not readable" % MODULE)
-        self.tree = self.repo.tree(MODULE)
+        self.fn_status = {t[2]: "pending" for t in TARGETS}
+        self.params = {}                 # fname -> [(python name, coq name, default ast | None)]
+        self.kwarg = {}                  # fname -> name of the **kw parameter | None
+        self.arity = {}
+        self.is_recursive = {}
+        self.opts = {t[2]: t[3] for t in TARGETS}
+        self.where = {t[2]: (t[0], t[1]) for t in TARGETS}
+        self.tuples = {}
+        self.tuple_defs = []
+        self.enum_defs = {}
+        self.table_needed = False
+        self.table_text = None
+        self.table_error = None
+
+
+class Gen:
+    """name resolution relative to ONE module; the registries of translated functions are shared"""
+
+    def __init__(self, module, shared):
+        self.S = shared
+        self.repo = shared.repo
+        self.module = module
+        if module not in self.repo.trees:
+            raise OSError("module %s not readable" % module)
+        self.tree = self.repo.tree(module)
         self.fns = {n.name: n for n in self.tree.body if isinstance(n, ast.FunctionDef)}
         self.assigns = {}
         counts = {}
@@ -724,44 +970,56 @@ class Gen:
             if isinstance(n, ast.Assign) and len(n.targets) == 1 and isinstance(n.targets[0], ast.Name):
                 self.assigns[n.targets[0].id] = n.value
         self.assign_counts = counts
-        self.fn_status = {f: "pending" for f in TARGETS}
-        self.arity = {}
-        self.is_recursive = {}
-        self.tuples = {}                 # python name -> coq name
-        self.tuple_defs = []
-        self.enum_defs = {}
-        self.table_needed = False
-        self.table_text = None
-        self.table_error = None
-        self._consts = None
+
+    fn_status = property(lambda self: self.S.fn_status)
+    arity = property(lambda self: self.S.arity)
+    is_recursive = property(lambda self: self.S.is_recursive)
 
     # ---- names of the module
     def global_rebound(self, name):
-        """a module-level name that functions may re-bind (global statement) or that is assigned twice"""
         for n in ast.walk(self.tree):
             if isinstance(n, ast.Global) and name in n.names:
                 return True
         return self.assign_counts.get(name, 0) > 1
 
     def class_name(self, name):
-        r = self.repo.resolve(MODULE, name)
+        r = self.repo.resolve(self.module, name)
         if r is None or name in self.assigns or name in self.fns:
             return None
         return r[1]
 
-    def string_const(self, name):
-        names, _ = self.repo.imports(MODULE)
-        imp = names.get(name)
-        if not imp or imp[0] != "from" or imp[1] not in self.repo.trees or name in self.assigns:
+    def _const_in(self, mod, name, depth=0):
+        if depth > 6 or mod not in self.repo.trees:
             return None
-        for n in self.repo.tree(imp[1]).body:
+        for n in self.repo.tree(mod).body:
             if isinstance(n, ast.Assign) and len(n.targets) == 1 and isinstance(n.targets[0], ast.Name) \
-                    and n.targets[0].id == imp[2] and isinstance(n.value, ast.Constant) and isinstance(n.value.value, str):
-                return n.value.value
+                    and n.targets[0].id == name:
+                if isinstance(n.value, ast.Constant) and isinstance(n.value.value, str):
+                    return n.value.value
+                return None
+        imp = self.repo.imports(mod)[0].get(name)
+        if imp and imp[0] == "from":
+            return self._const_in(imp[1], imp[2], depth + 1)
         return None
 
+    def string_const(self, name):
+        if name in self.assigns or name in self.fns:
+            return None
+        imp = self.repo.imports(self.module)[0].get(name)
+        if not imp or imp[0] != "from":
+            return None
+        return self._const_in(imp[1], imp[2])
+
+    def imported_from(self, name):
+        imp = self.repo.imports(self.module)[0].get(name)
+        return (imp[1], imp[2]) if imp and imp[0] == "from" else None
+
+    def is_callable_name(self, name):
+        """a module-level function of this module, or a name imported from somewhere (not one of the targets)"""
+        return name in self.fns or self.repo.imports(self.module)[0].get(name, ("",))[0] == "from"
+
     def enum_member(self, cls, member):
-        r = self.repo.resolve(MODULE, cls)
+        r = self.repo.resolve(self.module, cls)
         if r is None or cls in self.assigns:
             return None
         ms = self.repo.enum_members(r)
@@ -769,14 +1027,13 @@ class Gen:
             return None
         for n, v in ms:
             if n == member:
-                self.enum_defs[r[1]] = ms
+                self.S.enum_defs[r[1]] = ms
                 return "(PEnum %s %s (zint %s))" % (E.pstr(r[1]), E.pstr(n), E.zlit(v))
         raise Unsupported("%s has no member %s" % (cls, member))
 
     def class_tuple(self, name):
-        """a module-level `NAME = (Class, ...)` -> the Coq name of the emitted list of class names"""
-        if name in self.tuples:
-            return self.tuples[name]
+        if name in self.S.tuples:
+            return self.S.tuples[name]
         v = self.assigns.get(name)
         if v is None or not isinstance(v, ast.Tuple) or self.global_rebound(name):
             return None
@@ -787,14 +1044,15 @@ class Gen:
                 raise Unsupported("element %s of %s is not a class of the package" % (ast.unparse(x), name))
             ks.append(k)
         cname = coq_fn(name)
-        self.tuples[name] = cname
-        self.tuple_defs.append("(* from serialization.py::%s *)\nDefinition %s : list pystr :=\n  [%s]." % (
+        self.S.tuples[name] = cname
+        self.S.tuple_defs.append("(* from serialization.py::%s *)\nDefinition %s : list pystr :=\n  [%s]." % (
             name, cname, "; ".join(E.pstr(k) for k in ks)))
         return cname
 
     def need_table(self):
-        self.table_needed = True
-        if self.table_text is None and self.table_error is None:
+        S = self.S
+        S.table_needed = True
+        if S.table_text is None and S.table_error is None:
             try:
                 rows, seen = [], {}
                 for key, anc in self.repo.field_classes():
@@ -804,111 +1062,180 @@ class Gen:
                     rows.append("(%s, [%s])" % (E.pstr(key[1]), "; ".join(E.pstr(a[1]) for a in anc)))
                 if not rows:
                     raise Unsupported("no class descends from %s.%s" % FIELD_ROOT)
-                self.table_text = ("(* every class of the package that descends from structures.Field -> all its proper ancestors\n"
-                                   "   inside the package (from the class statements) *)\n"
-                                   "Definition field_class_table : class_table :=\n  [ %s ]." % ";\n    ".join(rows))
+                S.table_text = ("(* every class of the package that descends from structures.Field -> all its proper ancestors\n"
+                                "   inside the package (from the class statements) *)\n"
+                                "Definition field_class_table : class_table :=\n  [ %s ]." % ";\n    ".join(rows))
             except Unsupported as e:
-                self.table_error = str(e)
-        if self.table_error:
-            raise Unsupported("class table: %s" % self.table_error)
+                S.table_error = str(e)
+        if S.table_error:
+            raise Unsupported("class table: %s" % S.table_error)
 
     def rec_type(self, fname):
-        return " -> ".join(["pyval"] * self.arity[fname] + ["res pyval"])
+        return " -> ".join(["pyval"] * self.S.arity[fname] + ["res pyval"])
+
+    # ---- the parameter list of a target, known before any translation
+    def find_node(self, cls, fname):
+        if cls is None:
+            nodes = [n for n in self.tree.body if isinstance(n, ast.FunctionDef) and n.name == fname]
+            if fname in self.assigns:
+                nodes = []
+        else:
+            cd = self.repo.classdef(self.module, cls)
+            nodes = [n for n in (cd.body if cd else []) if isinstance(n, ast.FunctionDef) and n.name == fname]
+            # a method called by its bare name on any receiver: no other class of the package may define it
+            others = 0
+            for mod in self.repo.trees:
+                for c in self.repo.tree(mod).body:
+                    if isinstance(c, ast.ClassDef):
+                        others += sum(1 for n in c.body if isinstance(n, (ast.FunctionDef, ast.AsyncFunctionDef)) and n.name == fname)
+            if others != 1:
+                raise Unsupported("%d classes of the package define a method %s" % (others, fname))
+        if len(nodes) != 1:
+            raise Unsupported("%s: %d definitions found" % (fname, len(nodes)))
+        return nodes[0]
+
+    def declare(self, cls, fname):
+        node = self.find_node(cls, fname)
+        a = node.args
+        if a.vararg or getattr(a, "posonlyargs", []):
+            raise Unsupported("parameter list of %s" % fname)
+        ps = []
+        pos_defaults = [None] * (len(a.args) - len(a.defaults)) + list(a.defaults)
+        for p, d in list(zip(a.args, pos_defaults)) + list(zip(a.kwonlyargs, a.kw_defaults)):
+            clash = p.arg in RESERVED or re.match(r"^([trb]\d+|[vsi]_.*)$", p.arg)
+            ps.append((p.arg, p.arg + "_" if clash else p.arg, d))
+        self.S.params[fname] = ps
+        self.S.kwarg[fname] = a.kwarg.arg if a.kwarg else None
+        self.S.arity[fname] = len(ps) + (1 if a.kwarg else 0)
+        self.S.is_recursive[fname] = bool(self.S.opts[fname].get("fuel")) or any(
+            isinstance(n, ast.Call) and isinstance(n.func, ast.Name) and n.func.id == fname for n in ast.walk(node))
+        return node
 
     # ---- one function
-    def translate(self, fname):
-        node = self.fns.get(fname)
-        if node is None:
-            raise Unsupported("function %s not found at module level" % fname)
-        if sum(1 for n in self.tree.body if isinstance(n, ast.FunctionDef) and n.name == fname) != 1 \
-                or fname in self.assigns:
-            raise Unsupported("%s is defined more than once" % fname)
+    def translate(self, cls, fname):
+        opts = self.S.opts[fname]
+        node = self.find_node(cls, fname)
+        if fname not in self.S.params:
+            raise Unsupported("parameter list of %s" % fname)
         notes = []
         for d in node.decorator_list:
             x = d.func if isinstance(d, ast.Call) else d
             nm = x.id if isinstance(x, ast.Name) else None
-            imp = self.repo.imports(MODULE)[0].get(nm) if nm else None
+            imp = self.repo.imports(self.module)[0].get(nm) if nm else None
             if nm in TRANSPARENT_DECORATORS and imp == ("from", "functools", nm):
                 notes.append("decorator %s: memoisation of a pure function, transparent" % ast.unparse(d))
+            elif nm == "classmethod" and cls is not None:
+                notes.append("classmethod: the receiver is the first parameter")
             else:
                 raise Unsupported("decorator %s" % ast.unparse(d))
-        a = node.args
-        if a.vararg or a.kwarg or a.kwonlyargs or a.defaults or getattr(a, "posonlyargs", []):
-            raise Unsupported("parameter list of %s" % fname)
         for n in ast.walk(node):
             if isinstance(n, (ast.Global, ast.Nonlocal, ast.Yield, ast.YieldFrom, ast.Await, ast.Lambda,
                               ast.FunctionDef, ast.AsyncFunctionDef, ast.ClassDef)) and n is not node:
                 raise Unsupported("%s inside %s" % (type(n).__name__, fname))
-        params = []
-        for p in a.args:
-            clash = p.arg in RESERVED or re.match(r"^([trb]\d+|[vsi]_.*)$", p.arg)
-            params.append((p.arg, p.arg + "_" if clash else p.arg))
-        self.arity[fname] = len(params)
-        recursive = any(isinstance(n, ast.Call) and isinstance(n.func, ast.Name) and n.func.id == fname
-                        for n in ast.walk(node))
-        self.is_recursive[fname] = recursive
-        tr = TrT(self, fname, params, recursive)
+        params = [(p, c) for p, c, _ in self.S.params[fname]]
+        if self.S.kwarg[fname]:
+            params.append((self.S.kwarg[fname], self.S.kwarg[fname]))
+        leader = opts.get("rec_of")
+        recursive = self.S.is_recursive[fname]
+        tr = TrT(self, fname, params, recursive or bool(leader))
+        tr.oracles = bool(opts.get("oracles"))
+        tr.rec_of = leader or fname
+        tr.in_leader = recursive and not leader
         cname = coq_fn(fname)
-        if recursive:
-            tr.rec_term = "(%s fuel' h)" % cname
-        body = tr.block(node.body, lambda: "(Ok PNone)", None)
+        pre = "ext mcall h" if tr.oracles else "h"
+        if tr.in_leader:
+            tr.rec_term = "(%s fuel' %s)" % (cname, pre)
+        body_stmts = list(node.body)
+        final = "(Ok PNone)"
+        if opts.get("prefix_if_on"):
+            key = opts["prefix_if_on"]
+            idx = [i for i, st in enumerate(body_stmts) if isinstance(st, ast.If)
+                   and any(isinstance(m, ast.Name) and m.id == key for m in ast.walk(st.test))]
+            if not idx:
+                raise Unsupported("no top-level `if` on %s in %s" % (key, fname))
+            cut = idx[0] + 1
+            if cut < len(body_stmts):
+                notes.append("only the prefix of the body up to the `if` on %s (line %d) is translated; control that reaches "
+                             "line %d (the path without the shortcut) is Raise Unmodelled" % (
+                                 key, body_stmts[idx[0]].lineno, body_stmts[cut].lineno))
+                final = "(Raise Unmodelled)"
+            body_stmts = body_stmts[:cut]
+        body = tr.block(body_stmts, lambda: final, None)
+        notes += tr.notes
         sig = " ".join("(%s : pyval)" % c for _, c in params)
+        osig = "(ext : pystr -> list pyval -> res pyval) (mcall : pyval -> pystr -> list pyval -> res pyval) " if tr.oracles else ""
         text = "".join("(* note: %s *)\n" % n.replace("*)", "* )") for n in notes)
         text += "".join(lp + "\n\n" for lp in tr.loops)
-        if recursive:
-            text += ("Fixpoint %s (fuel : nat) (h : heap) %s {struct fuel} : res pyval :=\n"
-                     "  match fuel with\n  | O => Raise OutOfFuel\n  | S fuel' =>\n  %s\n  end." % (cname, sig, body))
+        if tr.in_leader:
+            text += ("Fixpoint %s (fuel : nat) %s(h : heap) %s {struct fuel} : res pyval :=\n"
+                     "  match fuel with\n  | O => Raise OutOfFuel\n  | S fuel' =>\n  %s\n  end." % (cname, osig, sig, body))
+        elif leader:
+            text += "Definition %s %s(h : heap) (rec : %s) %s : res pyval :=\n  %s." % (
+                cname, osig, self.rec_type(leader), sig, body)
         else:
-            text += "Definition %s (h : heap) %s : res pyval :=\n  %s." % (cname, sig, body)
+            text += "Definition %s %s(h : heap) %s : res pyval :=\n  %s." % (cname, osig, sig, body)
         return text
 
 
 def render():
-    lines = ["(* GENERATED by harness/genmods/py2v_trusted.py from /repo/typedpy/serialization/serialization.py and the",
-             "   class statements of the package.  Do not edit.",
+    lines = ["(* GENERATED by harness/genmods/py2v_trusted.py from /repo/typedpy/serialization/serialization.py,",
+             "   typedpy/structures/structures.py (Structure.from_trusted_data) and the class statements of the package.",
+             "   Do not edit.",
              "   Each src_* definition is the translation of the named function into the dynamic-operator libraries",
-             "   Base/PyOps.v, PyOps2.v, PyObj.v, PyOpsFields.v; Ser/TrustedSrcProofs.v proves it equal to the hand-written",
-             "   classifier of Ser/Trusted.v (mapper_simple, level_of, enum_targets) for every class environment. *)",
+             "   Base/PyOps.v, PyOps2.v, PyObj.v, PyOpsFields.v; Ser/TrustedSrcProofs.v and Ser/TrustedPathProofs.v prove it",
+             "   equal to the hand-written model of Ser/Trusted.v (mapper_simple, level_of, enum_targets, trusted_cls) for",
+             "   every class environment.  [ext name args] is a call of a function that is not translated here, [mcall o m args]",
+             "   a call of a method of an object whose class is not translated here: parameters of the definitions. *)",
              "From Coq Require Import ZArith NArith String List. Import ListNotations.",
              "From TP Require Import Base.PyVal Base.PyOps Base.PyOps2 Base.PyObj Base.PyOpsFields.",
              "Local Open Scope string_scope.", ""]
     status = {}
     try:
-        g = Gen()
+        S = Shared()
+        gens = {}
+        for mod, _, _, _ in TARGETS:
+            if mod not in gens:
+                gens[mod] = Gen(mod, S)
     except (OSError, SyntaxError) as e:
-        for f in TARGETS:
+        for t in TARGETS:
             lines.append("(* SOURCE UNREADABLE: %s *)\nDefinition %s_UNTRANSLATABLE : unit := tt.\n" % (
-                str(e).replace("*)", "* )"), coq_fn(f)))
-            status[coq_fn(f)] = "unreadable: %s" % e
+                str(e).replace("*)", "* )"), coq_fn(t[2])))
+            status[coq_fn(t[2])] = "unreadable: %s" % e
         return "\n".join(lines), status
-    chunks = []
-    for f in TARGETS:
-        cname = coq_fn(f)
+    for mod, cls, f, _ in TARGETS:
         try:
-            text = g.translate(f)
-            g.fn_status[f] = "ok"
+            gens[mod].declare(cls, f)
+        except Unsupported:
+            pass
+    chunks = []
+    for mod, cls, f, _ in TARGETS:
+        cname = coq_fn(f)
+        g = gens[mod]
+        try:
+            text = g.translate(cls, f)
+            S.fn_status[f] = "ok"
             status[cname] = "ok"
         except Unsupported as e:
             text = "(* NOT TRANSLATABLE: %s *)\nDefinition %s_UNTRANSLATABLE : unit := tt." % (str(e).replace("*)", "* )"), cname)
-            g.fn_status[f] = "unsupported: %s" % e
+            S.fn_status[f] = "unsupported: %s" % e
             status[cname] = "unsupported: %s" % e
-        chunks.append("(* from serialization.py::%s *)\n%s\n" % (f, text))
-    if g.table_needed:
-        if g.table_text:
-            lines.append(g.table_text)
+        chunks.append("(* from %s.py::%s%s *)\n%s\n" % (mod.split(".")[-1], (cls + ".") if cls else "", f, text))
+    if S.table_needed:
+        if S.table_text:
+            lines.append(S.table_text)
             status["field_class_table"] = "ok"
         else:
             lines.append("(* NOT TRANSLATABLE: %s *)\nDefinition field_class_table_UNTRANSLATABLE : unit := tt." % (
-                (g.table_error or "").replace("*)", "* )")))
-            status["field_class_table"] = "unsupported: %s" % g.table_error
+                (S.table_error or "").replace("*)", "* )")))
+            status["field_class_table"] = "unsupported: %s" % S.table_error
         lines.append("")
-    for t in g.tuple_defs:
+    for t in S.tuple_defs:
         lines.append(t)
         lines.append("")
-    for cls in sorted(g.enum_defs):
+    for cls in sorted(S.enum_defs):
         lines.append("(* members of the enum class %s, as the source declares them *)" % cls)
         lines.append("Definition src_enum_%s : list (pystr * Z) :=\n  [%s]." % (
-            cls.lstrip("_"), "; ".join("(%s, %s)" % (E.pstr(n), E.zlit(v)) for n, v in g.enum_defs[cls])))
+            cls.lstrip("_"), "; ".join("(%s, %s)" % (E.pstr(n), E.zlit(v)) for n, v in S.enum_defs[cls])))
         lines.append("")
     lines += chunks
     return "\n".join(lines), status
